@@ -93,7 +93,16 @@ def judge(diff):
             return name, dict(error='apply: ' + ap_.stderr[-200:])
         t = subprocess.run(['/venv/bin/python', '-m', 'pytest', '-q', '-p', 'no:cacheprovider', '-x'], cwd=wt, capture_output=True, text=True)
         res = dict(tests_pass=t.returncode == 0, alarms={}, judged_on=base[:7] + (' (HEAD)' if base == HEAD else ' (differential: the commit the patch was written for)'))
-        for c in a.checks:
+        touched = set(re.findall(r'^diff --git a/(\S+)', open(diff).read(), re.M))
+        # a patch that only touches dfu.py cannot influence the assembler checks, one that does not touch it cannot influence C18 / C19 (the two modules do not import each other)
+        if touched <= {'bronzebeard/dfu.py'}:
+            relevant = [c for c in a.checks if c in ('C18', 'C19')]
+        elif 'bronzebeard/dfu.py' not in touched:
+            relevant = [c for c in a.checks if c not in ('C18', 'C19')]
+        else:
+            relevant = list(a.checks)
+        res['checks_run'] = relevant
+        for c in relevant:
             p, keys = run_check(c, wt)
             if base == HEAD:
                 bad = p.returncode != 0
@@ -105,7 +114,7 @@ def judge(diff):
             if bad:
                 res['alarms'][c] = dict(exit=p.returncode, new_keys=new[:8], lines=[l[:300] for l in p.stdout.splitlines() if l.strip().startswith('key=') and any(k in l for k in new)][:6],
                                         tail=(p.stdout + p.stderr)[-400:] if p.returncode == 2 else '')
-        print(name, 'on', res['judged_on'], 'tests_pass=%s' % res['tests_pass'], 'ALARMS: %s' % sorted(res['alarms']) if res['alarms'] else 'silent on %d checks' % len(a.checks), flush=True)
+        print(name, 'on', res['judged_on'], 'tests_pass=%s' % res['tests_pass'], 'ALARMS: %s' % sorted(res['alarms']) if res['alarms'] else 'silent on %d checks' % len(relevant), flush=True)
         return name, res
     finally:
         drop(wt)
